@@ -303,6 +303,15 @@ def run_one(sc):
             continue
         s = pt.get("s", 0)
         pkt = Packet(env.now, 100 + i, i + 1, realtime=0, src="ep%d" % s, dst="dst9", flow_id=pt["f"])
+        if i % 2:
+            # every other packet carries non-default values in all header fields (an acknowledgement number, a colour,
+            # stamps and priorities left by upstream elements): copies must carry them too
+            pkt.ack = 1000 + i
+            pkt.color = "c%d" % (1 + i % 3)
+            pkt.current_time = 5 + i
+            pkt.realtime = 3 + i
+            pkt.priorities["tap4096"] = 4096
+            pkt.perhop_time["tap8192"] = 8192
         rec.new_put(pkt)
         mods = pt.get("mods", [])
         rec.early = {}
